@@ -174,6 +174,6 @@ def main(c):
              "given through Value, one with the cursor beyond the new end), window widths cycling 0..40; prefixed: from the "
              "same 5 starts a base plus a typed/pasted joining character (4 pairs x 3 forms) or a paste holding one of 11 control "
              "characters, from 2 of them the deletion (BackSpace, Delete; textinput Ctrl+w) of the grapheme between two that "
-             "then join (4 pairs), then every history of length 0..1 (quick) / 0..2 (thorough); seeded random histories of 60..300 commands incl. method calls, unbound keys, key "
+             "then join (4 pairs), then every history of length 0..1 (quick) / 0..2 (thorough); seeded random histories of 60..300 commands (a third with Caps Lock / Num Lock bits on every key) incl. method calls, unbound keys, key "
              "releases, pastes (a third with control characters), joining characters, joining deletions, assignments of Value, resizes; hand-written corners. Every command is one event checked by LineEdit!Next "
              "(text, cursor), ChangeOK/SubmitOK (callbacks) and ColOK (drawn cursor); distinct = distinct descriptor")
